@@ -6,6 +6,8 @@ import TaskModel.Sched.DeadlockLemmas
 import TaskModel.Sched.TermInv
 import TaskModel.Sched.LiveMain
 import TaskModel.Sched.LiveFinal
+import TaskModel.Sched.LiveAll
+import TaskModel.Sched.OldRule
 import TaskModel.Sched.TermAll
 import TaskModel.Gen.Codes
 /-!
@@ -171,62 +173,107 @@ theorem C07_cycle_error_wrapped (x : Act) (c : Cmd) :
     (x.afterCmd c (.typed 204)).res = (if x.indirect then .typed 204 else .run (.typed 204)) := by
   cases c <;> simp [Act.afterCmd, Act.fail]
 
+/-- **C07 (the error, cycles through deduplicated tasks).** A reference that comes back to a
+`run: once` / `when_changed` task whose execution is still under way — registered, and waiting
+(directly or through other executions) for the execution the referring call is part of — is
+not made to wait: the only label `startExecution` accepts for that key is `waitCycle`
+(`C07_wait_or_refuse`), and the activation stops with "called too many times" (204), unmarked,
+having started nothing, still holding its slot (which it gives back with `release`). -/
+theorem C07_cycle_error_dedup (F : Flags) (o : Obs) (x : Act) (k : Nat) (y : Act) (eff : Eff)
+    (h : stepLocal F o x (.waitCycle k) = some (y, eff)) :
+    (x.phase = .acquired ∧ x.def_.run ≠ .always ∧ o.registered k = true ∧ o.cyc k = true) ∧
+    y.phase = .finished ∧ y.res = .typed 204 ∧ y.out = ⟨.typed 204, false⟩ ∧ eff = .none ∧
+    y.started = x.started ∧ y.holds = x.holds := by
+  have hL := S2.LStep_of_stepLocal F o x _ y eff h
+  cases hL with
+  | waitCycle k hp hr hk hcyc => exact ⟨⟨hp, hr, hk, hcyc⟩, rfl, rfl, rfl, rfl, rfl, rfl⟩
+
+/-- `startExecution` on a registered key: the call waits (`waiter`) exactly when the registered
+execution does not wait for the caller's own, and is refused (`waitCycle`) exactly when it does -/
+theorem C07_wait_or_refuse (F : Flags) (o : Obs) (x : Act) (k : Nat) (hp : x.phase = .acquired)
+    (hr : x.def_.run ≠ .always) (hk : o.registered k = true) :
+    (stepLocal F o x (.waiter k)).isSome = !o.cyc k ∧ (stepLocal F o x (.waitCycle k)).isSome = o.cyc k ∧
+    (stepLocal F o x (.register k)).isSome = false := by
+  cases hc : o.cyc k <;> simp [stepLocal, hp, hr, hk, hc]
+
 /-! ## deadlock freedom and termination
 
-Proved: deadlock freedom (`C07_no_deadlock`) for programs without a reference cycle through
-a deduplicated task, termination for all programs (`C07_terminates_all`; `C07_terminates`
-with a bound independent of the call limit for acyclic ones), what a quiescent configuration
-looks like (`C07_completes`), no phase is a dead end, what each blocking phase waits for,
-and the machine-checked deadlock of a cycle through a `run: once` task. -/
+Proved for EVERY program (after the fix of `C07-once-cycle-deadlocks`: a wait that would close a
+cycle of executions waiting for one another is refused): the wait-for relation between unfinished
+executions is acyclic in every reachable configuration (`C07_wait_acyclic`), the check the
+executor makes is exact (`C07_waitsFor_exact`), no reachable configuration deadlocks
+(`C07_no_deadlock`), a quiescent configuration is final (`C07_completes`), every accepted trace is
+bounded (`C07_terminates_all`); no phase is a dead end, what each blocking phase waits for.
+`C07_old_rule_deadlock` keeps the machine-checked hang of the rule as it was before the fix. -/
 
 /-- the static references (`deps:` and `task:` commands) are acyclic: some rank decreases
 along every reference -/
 def Acyclic (P : Program) : Prop := ∃ rank : Nat → Nat, RankOk P rank
 
-/-- no reference cycle goes through a deduplicated (`run: once` / `when_changed`) task: some
-rank never increases along a reference and decreases along every reference from or to such a
-task.  Acyclic programs and programs with only `run: always` tasks (cyclic or not) qualify. -/
-def NoDedupCycle (P : Program) : Prop := ∃ rank : Nat → Nat, SemiRankOk P rank
+/-- **C07 (the invariant behind the fix).** In every reachable configuration the wait-for
+relation between registered executions (`Config.waits`: `p → k` when `k` was registered from
+within `p` or a call that is part of `p` waits for `k`), restricted to executions that have not
+finished, is acyclic: some rank decreases along every edge, so no execution reaches itself
+through one or more edges. -/
+theorem C07_wait_acyclic (P : Program) (F : Flags) (n : Nat) (tr : List Label) (c : Config)
+    (h : replay P F (init n) tr = some c) :
+    (∃ rk : Nat → Nat, ∀ s t, WEdge c s t → rk t < rk s) ∧ (∀ k s l, ¬ WPath c k (s :: l) k) := by
+  obtain ⟨rk, hrk⟩ := (wInv_reach P F n tr c h).rank
+  exact ⟨⟨rk, hrk⟩, fun k s l => no_cycle_of_rank c rk hrk k s l⟩
 
-theorem noDedupCycle_of_acyclic (P : Program) (h : Acyclic P) : NoDedupCycle P := by
-  obtain ⟨rank, hr⟩ := h
-  exact ⟨rank, semiRank_of_rank P rank hr⟩
+/-- **C07 (the check is exact).** In a reachable configuration `execWaitsFor k p` — the model of
+`other.waitsFor(parent)`, a search bounded by the number of registered executions — holds iff `p`
+is reachable from `k` through executions that have not finished. -/
+theorem C07_waitsFor_exact (P : Program) (F : Flags) (n : Nat) (tr : List Label) (c : Config)
+    (h : replay P F (init n) tr = some c) (k p : Nat) :
+    c.execWaitsFor k p = true ↔ ∃ l, WPath c k l p := by
+  have hw := wInv_reach P F n tr c h
+  obtain ⟨rk, hrk⟩ := hw.rank
+  exact ⟨reaches_sound c _ k p, fun ⟨l, hl⟩ => execWaitsFor_complete c rk hrk (fun s t e => (hw.reg s t e).1) k p l hl⟩
 
-theorem noDedupCycle_of_always (P : Program) (h : ∀ (t : Nat) (d : TaskDef), P[t]? = some d → d.run = .always) :
-    NoDedupCycle P := ⟨fun _ => 0, semiRank_of_always P h⟩
+/-- **C07 (bookkeeping of the relation).** In a reachable configuration: an edge joins registered
+executions; an activation that is the registered execution of key `k` / that waits for `k`, and is
+itself part of execution `p`, has the edge `p → k` recorded; and an activation that has not returned
+is part of an execution that has not finished (so none of these edges is a dead one). -/
+theorem C07_wait_edges (P : Program) (F : Flags) (n : Nat) (tr : List Label) (c : Config)
+    (h : replay P F (init n) tr = some c) :
+    (∀ s t, (s, t) ∈ c.waits → (c.execs.lookup s).isSome = true ∧ (c.execs.lookup t).isSome = true) ∧
+    (∀ a x k p, c.act? a = some x → (x.key = some k ∨ x.waitsFor = some k) → x.par = some p → (p, k) ∈ c.waits) ∧
+    (∀ a x p, c.act? a = some x → x.phase ≠ .done → x.par = some p → execFinished c p = false) := by
+  have hw := wInv_reach P F n tr c h
+  refine ⟨hw.reg, ?_, ?_⟩
+  · intro a x k p hx hk hp
+    rcases hk with e | e
+    · exact hw.keyEdge a x k p hx e hp
+    · exact hw.waitEdge a x k p hx e hp
+  · intro a x p hx hnd hp
+    exact par_unfinished P F n tr c h (pos a (actIds tr) + 1) a x p (Nat.lt_succ_self _) hx hnd hp
 
-/-- **C07 (no deadlock).** For every program without a reference cycle through a
-deduplicated task — in particular every acyclic program, and every program of `run: always`
-tasks however cyclic — with at least one slot (or no limit) and dedup keys that identify the
-task (`KeysByTask`: in the code the key is a hash of the task and its variables; the model
-accepts any key, so the assumption is needed), every reachable configuration in which some
-activation has not returned accepts a next label: the executor never deadlocks on its
-concurrency slots, on deduplicated tasks, on dependencies or on nested calls, under any
-interleaving.  (An activation that cannot move waits for a slot — then a slot is free or a
-holder can move — or for an activation that is strictly smaller in the lexicographic
-measure `(2 * rank task + [is a dedup waiter], creation order reversed)`.)
-`C07_once_cycle_deadlock` shows the hypothesis on cycles cannot be dropped. -/
+/-- **C07 (no deadlock).** For every program — cyclic or not, through deduplicated tasks or not —
+with at least one slot (or no limit), every reachable configuration in which some activation has
+not returned accepts a next label: the executor never deadlocks on its concurrency slots, on
+deduplicated tasks, on dependencies or on nested calls, under any interleaving.  (An activation
+that cannot move waits for a slot — then a slot is free or a holder can move — or for an
+activation that is strictly smaller in the lexicographic measure `(rank of the execution it works
+for, creation order reversed)`, the rank being the one of `C07_wait_acyclic`.) -/
 theorem C07_no_deadlock (P : Program) (F : Flags) (n : Nat) (tr : List Label) (c : Config)
-    (hac : NoDedupCycle P) (hcap : F.cap ≠ some 0) (hk : KeysByTask tr) (h : replay P F (init n) tr = some c)
+    (hcap : F.cap ≠ some 0) (h : replay P F (init n) tr = some c)
     (hlive : ∃ a x, c.act? a = some x ∧ x.phase ≠ .done) : ∃ l, (step P F c l).isSome = true := by
-  obtain ⟨rank, hr⟩ := hac
   obtain ⟨a, x, hx, hnd⟩ := hlive
-  exact no_deadlock P F rank hr n tr c hcap hk h a x hx hnd
+  exact no_deadlock_all P F n tr c hcap h a x hx hnd
 
-/-- **C07 (the invocation stops only when all required work is done).** Under the
-hypotheses of `C07_no_deadlock`, a reachable configuration in which no label is accepted is
-final: every activation has returned, every slot has been given back, and every call given
-to `Run` has been executed — unless `Run` is sequential and an earlier call failed, which
-is when `Run` returns that error at once. -/
+/-- **C07 (the invocation stops only when all required work is done).** A reachable
+configuration in which no label is accepted is final: every activation has returned, every slot
+has been given back, and every call given to `Run` has been executed — unless `Run` is sequential
+and an earlier call failed, which is when `Run` returns that error at once. -/
 theorem C07_completes (P : Program) (F : Flags) (n : Nat) (tr : List Label) (c : Config)
-    (hac : NoDedupCycle P) (hcap : F.cap ≠ some 0) (hk : KeysByTask tr) (h : replay P F (init n) tr = some c)
+    (hcap : F.cap ≠ some 0) (h : replay P F (init n) tr = some c)
     (hq : ∀ l, step P F c l = none) :
     (∀ a x, c.act? a = some x → x.phase = .done) ∧ c.tokens = 0 ∧
     (∀ k, k < n → (c.tops.lookup k).isSome = true ∨
       (F.parallel = false ∧ ∃ k' id r, k' < k ∧ c.tops.lookup k' = some id ∧ kidDone c id = some r ∧
-        r.isOk = false)) := by
-  obtain ⟨rank, hr⟩ := hac
-  exact quiescent_final P F rank hr n tr c hcap hk h hq
+        r.isOk = false)) :=
+  quiescent_final_all P F n tr c hcap h hq
 
 /-- **C07 (termination).** For every acyclic program, all flags and every number of calls
 given to `Run` there is a bound on the length of ALL accepted traces: no interleaving runs
@@ -241,12 +288,22 @@ theorem C07_terminates (P : Program) (F : Flags) (n : Nat) (hac : Acyclic P) :
 number of calls given to `Run` — all accepted traces are bounded (by
 `2 n + Σ_t (maxCalls − 1) · unitCost t`): the call counter lets fewer than `maxCalls`
 activations of each task past `enter`, each of which costs a bounded number of labels.  So a
-cycle through `run: always` tasks neither hangs (`C07_no_deadlock` via
-`noDedupCycle_of_always`) nor runs forever nor creates unboundedly many activations: it ends,
-and the activations that hit the limit return 204 (`C07_cycle_error`). -/
+reference cycle neither hangs (`C07_no_deadlock`) nor runs forever nor creates unboundedly many
+activations: it ends; the activations that hit the limit return 204 (`C07_cycle_error`), as do
+those whose wait would have closed a cycle through a deduplicated task
+(`C07_cycle_error_dedup`). -/
 theorem C07_terminates_all (P : Program) (F : Flags) (n : Nat) :
     ∃ bound, ∀ (tr : List Label) (c : Config), replay P F (init n) tr = some c → tr.length ≤ bound :=
   ⟨_, fun tr c h => trace_bounded_all P F n tr c h⟩
+
+/-- … hence every run can be completed and every complete run is final: from any reachable
+configuration, as long as an activation has not returned some label is accepted, and no sequence
+of accepted labels is longer than the bound -/
+theorem C07_ends (P : Program) (F : Flags) (n : Nat) (hcap : F.cap ≠ some 0) :
+    ∃ bound, ∀ (tr : List Label) (c : Config), replay P F (init n) tr = some c →
+      tr.length ≤ bound ∧ ((∃ a x, c.act? a = some x ∧ x.phase ≠ .done) → ∃ l, (step P F c l).isSome = true) := by
+  obtain ⟨b, hb⟩ := C07_terminates_all P F n
+  exact ⟨b, fun tr c h => ⟨hb tr c h, C07_no_deadlock P F n tr c hcap h⟩⟩
 
 /-- every activation takes boundedly many steps, in any program (cyclic or not): each local
 step decreases `rem` -/
@@ -286,86 +343,6 @@ theorem C07_only_waits_block (P : Program) (F : Flags) (n : Nat) (tr : List Labe
     · rename_i k t he; exact absurd he (hne k t)
     · simp [hx, hs]
 
-/-- a task that runs once and depends on itself -/
-def onceDep : Program := [{ run := .once, deps := [0] }]
-/-- … or calls itself -/
-def onceCall : Program := [{ run := .once, cmds := [.call 0 false] }]
-
-def onceDepRun : List Label :=
-  [⟨1, .enter (.top 0) 0⟩, ⟨1, .acquire⟩, ⟨1, .register 0⟩, ⟨1, .depsRelease⟩,
-   ⟨2, .enter (.dep 1 0) 0⟩, ⟨2, .acquire⟩, ⟨2, .waiter 0⟩, ⟨2, .wRelease⟩]
-
-def onceCallRun : List Label :=
-  [⟨1, .enter (.top 0) 0⟩, ⟨1, .acquire⟩, ⟨1, .register 0⟩, ⟨1, .depsRelease⟩, ⟨1, .depsReacq⟩, ⟨1, .depsDone .ok⟩,
-   ⟨1, .guardsPassed⟩, ⟨1, .callRelease 0 false⟩,
-   ⟨2, .enter (.call 1 0 false) 0⟩, ⟨2, .acquire⟩, ⟨2, .waiter 0⟩, ⟨2, .wRelease⟩]
-
-/-- **C07 counterexample (cycle through a `run: once` task, via `deps:`).** The executor
-reaches a configuration in which the registered execution waits for its dependency
-(`depsWait`) and that dependency — a deduplicated waiter on the very same execution —
-waits for it (`wReleased`): all slots are free, no activation can move, no new activation
-can enter: no label at all is accepted, under any `--concurrency`.  The call counter never
-gets near its limit: the cycle ends in a hang, not in error 204. -/
-theorem C07_once_cycle_deadlock :
-    ∃ c, replay onceDep {} (init 1) onceDepRun = some c ∧
-      (c.tokens = 0 ∧ c.callCount 0 = 2 ∧
-       (c.act? 1).map (·.phase) = some .depsWait ∧ (c.act? 2).map (·.phase) = some .wReleased) ∧
-      ∀ l, step onceDep {} c l = none := by
-  cases hr : replay onceDep {} (init 1) onceDepRun with
-  | none => exact absurd hr (by decide)
-  | some c =>
-    have h1 : (replay onceDep {} (init 1) onceDepRun).map deadlocked = some true := by decide
-    have h2 : (replay onceDep {} (init 1) onceDepRun).map (fun c => (c.tokens, c.callCount 0,
-        (c.act? 1).map (·.phase), (c.act? 2).map (·.phase))) = some (0, 2, some .depsWait, some .wReleased) := by
-      decide
-    rw [hr] at h1 h2
-    simp only [Option.map_some, Option.some.injEq, Prod.mk.injEq] at h1 h2
-    exact ⟨c, rfl, ⟨h2.1, h2.2.1, h2.2.2.1, h2.2.2.2⟩, deadlocked_sound onceDep {} c h1⟩
-
-/-- the same through a `task:` command: the caller waits for its callee (`inCall`), the
-callee waits for the caller's execution -/
-theorem C07_once_cycle_deadlock_call :
-    ∃ c, replay onceCall {} (init 1) onceCallRun = some c ∧
-      (c.tokens = 0 ∧ (c.act? 1).map (·.phase) = some (.inCall 0 false) ∧
-       (c.act? 2).map (·.phase) = some .wReleased) ∧
-      ∀ l, step onceCall {} c l = none := by
-  cases hr : replay onceCall {} (init 1) onceCallRun with
-  | none => exact absurd hr (by decide)
-  | some c =>
-    have h1 : (replay onceCall {} (init 1) onceCallRun).map deadlocked = some true := by decide
-    have h2 : (replay onceCall {} (init 1) onceCallRun).map (fun c => (c.tokens,
-        (c.act? 1).map (·.phase), (c.act? 2).map (·.phase))) = some (0, some (.inCall 0 false), some .wReleased) := by
-      decide
-    rw [hr] at h1 h2
-    simp only [Option.map_some, Option.some.injEq, Prod.mk.injEq] at h1 h2
-    exact ⟨c, rfl, ⟨h2.1, h2.2.1, h2.2.2⟩, deadlocked_sound onceCall {} c h1⟩
-
-/-- hence deadlock freedom cannot be extended to cyclic programs: "cyclic task references
-end with an error rather than hanging" is FALSE for cycles through `run: once` (and
-`run: when_changed`) tasks -/
-theorem C07_cyclic_counterexample :
-    ¬ (∀ (P : Program) (F : Flags) (n : Nat) (tr : List Label) (c : Config),
-        F.cap ≠ some 0 → KeysByTask tr → replay P F (init n) tr = some c →
-        (∃ a x, c.act? a = some x ∧ x.phase ≠ .done) → ∃ l, (step P F c l).isSome = true) := by
-  intro hall
-  obtain ⟨c, hr, ⟨_, _, h1, _⟩, hstuck⟩ := C07_once_cycle_deadlock
-  have hk : KeysByTask onceDepRun := by
-    refine ⟨fun _ => 0, ?_⟩
-    intro l hl k _ kind t he
-    have : ∀ l ∈ onceDepRun, (match enterOf l.act onceDepRun with | some (_, t) => t == 0 | none => true) = true := by
-      decide
-    have h0 := this l hl
-    rw [he] at h0
-    exact (beq_iff_eq.mp h0).symm
-  cases hx : c.act? 1 with
-  | none => rw [hx] at h1; cases h1
-  | some x =>
-    rw [hx] at h1
-    simp only [Option.map_some, Option.some.injEq] at h1
-    obtain ⟨l, hl⟩ := hall onceDep {} 1 onceDepRun c (by decide) hk hr ⟨1, x, hx, by rw [h1]; decide⟩
-    rw [hstuck l] at hl
-    cases hl
-
 /-! ## non-vacuity -/
 
 /-- a task with two independent dependencies, one slot -/
@@ -388,22 +365,11 @@ theorem fan_acyclic : Acyclic fan := by
   | 2 => simp [fan] at h; subst h; simp
   | t + 3 => simp [fan] at h
 
-/-- a decidable sufficient condition for `KeysByTask`: every dedup event is by an activation of task `t0` -/
-theorem keysByTask_of_const (tr : List Label) (t0 : Nat)
-    (h : tr.all (fun l => match l.ev with
-      | .register _ | .waiter _ => (match enterOf l.act tr with | some (_, t) => t == t0 | none => true)
-      | _ => true) = true) : KeysByTask tr := by
-  refine ⟨fun _ => t0, ?_⟩
-  intro l hl k hk kind t he
-  have := List.all_eq_true.mp h l hl
-  rcases hk with e | e <;> rw [e] at this <;> simp only [he] at this <;> exact (beq_iff_eq.mp this).symm
-
 -- the run is accepted; one slot in use, held by the activation inside its shell command
 example : ((replay fan one (init 1) fanRun).map (fun c => (c.tokens, holders c (actIds fanRun), shells c (actIds fanRun))))
     = some (1, 1, 1) := by decide
--- the hypotheses of `C07_no_deadlock` / `C07_completes` are met by this run
-example : NoDedupCycle fan ∧ one.cap ≠ some 0 ∧ KeysByTask fanRun :=
-  ⟨noDedupCycle_of_acyclic fan fan_acyclic, by decide, keysByTask_of_const fanRun 0 (by decide)⟩
+-- the hypotheses of `C07_no_deadlock` / `C07_completes` (at least one slot) and of `C07_terminates` are met by this run
+example : one.cap ≠ some 0 ∧ Acyclic fan := ⟨by decide, fan_acyclic⟩
 -- the second dependency cannot take a slot while the first one runs its command …
 example : (replay fan one (init 1) (fanRun ++ [⟨3, .acquire⟩])).isNone = true := by decide
 -- … the raw monitor rejects such a log, and accepts the real one
@@ -434,10 +400,11 @@ theorem shared_acyclic : Acyclic shared := by
   | 1 => simp [shared] at h; subst h; simp
   | t + 2 => simp [shared] at h
 
--- a complete run with a deduplicated task: accepted, meets the hypotheses of `C07_no_deadlock` /
--- `C07_completes`, ends in a configuration that accepts no label (`deadlocked_sound`), all slots free
-example : NoDedupCycle shared ∧ two.cap ≠ some 0 ∧ KeysByTask sharedRun :=
-  ⟨noDedupCycle_of_acyclic shared shared_acyclic, by decide, keysByTask_of_const sharedRun 1 (by decide)⟩
+-- a complete run with a deduplicated task: accepted, meets the hypothesis of `C07_no_deadlock` /
+-- `C07_completes`, ends in a configuration that accepts no label (`deadlocked_sound`), all slots free;
+-- the waiter is outside every execution, so it records no wait-for edge
+example : two.cap ≠ some 0 ∧ Acyclic shared := ⟨by decide, shared_acyclic⟩
+example : ((replay shared two (init 1) sharedRun).map (fun c => c.waits)) = some [] := by decide
 example : ((replay shared two (init 1) sharedRun).map (fun c => (deadlocked c, c.tokens, boundOk 2 sharedRun 0)))
     = some (true, 0, true) := by decide
 -- half-way through, the waiter is blocked (`wWake` rejected) but the execution can move
@@ -457,12 +424,6 @@ private def selfDepRun : List Label :=
 example : ((replay selfDep lim3 (init 1) selfDepRun).map
     (fun c => (c.tokens, c.callCount 0, (c.act? 3).map (·.res), (c.act? 1).map (fun x => (x.res, x.phase)))))
     = some (0, 3, some (.typed 204), some (.typed 204, .done)) := by decide
--- a cyclic program of `run: always` tasks meets the hypothesis of `C07_no_deadlock`
-example : NoDedupCycle selfDep := noDedupCycle_of_always selfDep (by
-  intro t d h
-  match t with
-  | 0 => simp [selfDep] at h; subst h; rfl
-  | t + 1 => simp [selfDep] at h)
 -- the third activation cannot take a slot
 example : (replay selfDep lim3 (init 1) (selfDepRun.take 7 ++ [⟨3, .acquire⟩])).isNone = true := by decide
 
@@ -482,5 +443,113 @@ private def selfCallRun : List Label :=
 example : ((replay selfCall lim3 (init 1) selfCallRun).map
     (fun c => (c.tokens, (c.act? 2).map (·.res), (c.act? 1).map (fun x => (x.res, x.phase)))))
     = some (0, some (.typed 204), some (.run (.typed 204), .done)) := by decide
+
+/-! ### reference cycles through deduplicated tasks end with 204 -/
+
+/-- a task that runs once and depends on itself -/
+def onceDep : Program := [{ run := .once, deps := [0] }]
+/-- … or calls itself -/
+def onceCall : Program := [{ run := .once, cmds := [.call 0 false] }]
+
+/-- up to the point where the inner reference has taken its slot -/
+def onceDepPrefix : List Label :=
+  [⟨1, .enter (.top 0) 0⟩, ⟨1, .acquire⟩, ⟨1, .register 0⟩, ⟨1, .depsRelease⟩,
+   ⟨2, .enter (.dep 1 0) 0⟩, ⟨2, .acquire⟩]
+
+def onceDepRun : List Label :=
+  onceDepPrefix ++ [⟨2, .waitCycle 0⟩, ⟨2, .release⟩, ⟨2, .exit⟩,
+   ⟨1, .depsReacq⟩, ⟨1, .depsDone (.typed 204)⟩, ⟨1, .execDone⟩, ⟨1, .release⟩, ⟨1, .exit⟩]
+
+-- the inner reference is part of the execution it finds registered: waiting is refused …
+example : (replay onceDep {} (init 1) (onceDepPrefix ++ [⟨2, .waiter 0⟩])).isNone = true := by decide
+example : ((replay onceDep {} (init 1) onceDepPrefix).map (fun c => ((c.act? 2).map (·.par), c.execWaitsFor 0 0)))
+    = some (some (some 0), true) := by decide
+-- … and the run ends: the dependency returns 204, so does the task named on the command line
+example : ((replay onceDep {} (init 1) onceDepRun).map
+    (fun c => (c.tokens, (c.act? 2).map (·.res), (c.act? 1).map (fun x => (x.res, x.phase)), deadlocked c)))
+    = some (0, some (.typed 204), some (.typed 204, .done), true) := by decide
+
+def onceCallRun : List Label :=
+  [⟨1, .enter (.top 0) 0⟩, ⟨1, .acquire⟩, ⟨1, .register 0⟩, ⟨1, .depsRelease⟩, ⟨1, .depsReacq⟩, ⟨1, .depsDone .ok⟩,
+   ⟨1, .guardsPassed⟩, ⟨1, .callRelease 0 false⟩,
+   ⟨2, .enter (.call 1 0 false) 0⟩, ⟨2, .acquire⟩, ⟨2, .waitCycle 0⟩, ⟨2, .release⟩, ⟨2, .exit⟩,
+   ⟨1, .callRet 0⟩, ⟨1, .callReacq 0⟩, ⟨1, .execDone⟩, ⟨1, .release⟩, ⟨1, .exit⟩]
+
+-- through a `task:` command: the callee returns 204, the task named on the command line 201 wrapping it
+example : ((replay onceCall {} (init 1) onceCallRun).map
+    (fun c => (c.tokens, (c.act? 2).map (·.res), (c.act? 1).map (fun x => (x.res, x.phase)))))
+    = some (0, some (.typed 204), some (.run (.typed 204), .done)) := by decide
+
+/-- two `run: once` tasks that depend on each other, both named on the command line, `--parallel` -/
+private def mutualOnce : Program := [{ run := .once, deps := [1] }, { run := .once, deps := [0] }]
+private def par : Flags := { parallel := true }
+
+private def mutualPrefix : List Label :=
+  [⟨1, .enter (.top 0) 0⟩, ⟨2, .enter (.top 1) 1⟩, ⟨1, .acquire⟩, ⟨1, .register 0⟩, ⟨2, .acquire⟩, ⟨2, .register 1⟩,
+   ⟨1, .depsRelease⟩, ⟨2, .depsRelease⟩,
+   ⟨3, .enter (.dep 1 0) 1⟩, ⟨3, .acquire⟩, ⟨3, .waiter 1⟩, ⟨3, .wRelease⟩,     -- execution 0 waits for execution 1
+   ⟨4, .enter (.dep 2 0) 0⟩, ⟨4, .acquire⟩]
+
+private def mutualRun : List Label :=
+  mutualPrefix ++ [⟨4, .waitCycle 0⟩, ⟨4, .release⟩, ⟨4, .exit⟩,                   -- … so 1 may not wait for 0
+   ⟨2, .depsReacq⟩, ⟨2, .depsDone (.typed 204)⟩, ⟨2, .execDone⟩, ⟨3, .wWake⟩, ⟨3, .wReacq⟩, ⟨3, .release⟩, ⟨3, .exit⟩,
+   ⟨2, .release⟩, ⟨2, .exit⟩, ⟨1, .depsReacq⟩, ⟨1, .depsDone (.typed 204)⟩, ⟨1, .execDone⟩, ⟨1, .release⟩, ⟨1, .exit⟩]
+
+-- the first wait is recorded as an edge; the wait that would close the cycle is refused, the other event rejected
+example : ((replay mutualOnce par (init 2) mutualPrefix).map (fun c => (c.waits, c.execWaitsFor 0 1, c.execWaitsFor 1 0)))
+    = some ([(0, 1)], true, false) := by decide
+example : (replay mutualOnce par (init 2) (mutualPrefix ++ [⟨4, .waiter 0⟩])).isNone = true := by decide
+example : (replay mutualOnce par (init 2) (mutualPrefix.take 10 ++ [⟨3, .waitCycle 1⟩])).isNone = true := by decide
+-- both calls end with 204
+example : ((replay mutualOnce par (init 2) mutualRun).map
+    (fun c => (c.tokens, (c.act? 1).map (fun x => (x.res, x.phase)), (c.act? 2).map (fun x => (x.res, x.phase)), deadlocked c)))
+    = some (0, some (.typed 204, .done), some (.typed 204, .done), true) := by decide
+
+/-- a `run: once` task whose `defer:` calls it again -/
+private def deferSelf : Program := [{ run := .once, cmds := [.call 0 true, .shell 0 false false] }]
+
+private def deferSelfRun : List Label :=
+  [⟨1, .enter (.top 0) 0⟩, ⟨1, .acquire⟩, ⟨1, .register 0⟩, ⟨1, .depsRelease⟩, ⟨1, .depsReacq⟩, ⟨1, .depsDone .ok⟩,
+   ⟨1, .guardsPassed⟩, ⟨1, .cmdStart 1 none false⟩, ⟨1, .cmdEnd 1 .ok⟩, ⟨1, .callRelease 0 true⟩,
+   ⟨2, .enter (.call 1 0 true) 0⟩, ⟨2, .acquire⟩, ⟨2, .waitCycle 0⟩, ⟨2, .release⟩, ⟨2, .exit⟩,
+   ⟨1, .callRet 0⟩, ⟨1, .callReacq 0⟩, ⟨1, .execDone⟩, ⟨1, .release⟩, ⟨1, .exit⟩]
+
+-- the deferred call knows the execution it is part of (`runDeferred` keeps the context's values): it is
+-- refused with 204, which a `defer:` discards — the task itself succeeds
+example : ((replay deferSelf {} (init 1) deferSelfRun).map
+    (fun c => (c.tokens, (c.act? 2).map (fun x => (x.par, x.res)), (c.act? 1).map (fun x => (x.res, x.phase)))))
+    = some (0, some (some 0, .typed 204), some (.ok, .done)) := by decide
+example : (replay deferSelf {} (init 1) (deferSelfRun.take 12 ++ [⟨2, .waiter 0⟩])).isNone = true := by decide
+
+/-! ### the rule before the fix — a fact about the OLD rule (`S7.stepOld`), not about the model -/
+
+/-- the log the unpatched executor wrote before it hung: the inner reference waits for the execution it is part of -/
+def onceDepHang : List Label := onceDepPrefix ++ [⟨2, .waiter 0⟩, ⟨2, .wRelease⟩]
+
+/-- **The OLD rule deadlocks (finding `C07-once-cycle-deadlocks`, fixed).**  Under the rule of
+`startExecution` as it was before the fix — a call that finds its key registered waits, whoever
+registered it (`S7.stepOld`: the same transition function with the wait-for check switched off) —
+a `run: once` task that depends on itself reaches a configuration in which the registered execution
+waits for its dependency (`depsWait`) and that dependency, a waiter on the very same execution,
+waits for it (`wReleased`): all slots free, no label at all accepted, the call counter nowhere near
+its limit.  The model — the rule as it is now — rejects that log at the `waiter` event
+(`C07_no_deadlock` has no exception any more). -/
+theorem C07_old_rule_deadlock :
+    (∃ c, replayOld onceDep {} (init 1) onceDepHang = some c ∧
+      (c.tokens = 0 ∧ c.callCount 0 = 2 ∧
+       (c.act? 1).map (·.phase) = some .depsWait ∧ (c.act? 2).map (·.phase) = some .wReleased) ∧
+      ∀ l, stepOld onceDep {} c l = none) ∧
+    replay onceDep {} (init 1) onceDepHang = none := by
+  refine ⟨?_, by decide⟩
+  cases hr : replayOld onceDep {} (init 1) onceDepHang with
+  | none => exact absurd hr (by decide)
+  | some c =>
+    have h1 : (replayOld onceDep {} (init 1) onceDepHang).map deadlocked = some true := by decide
+    have h2 : (replayOld onceDep {} (init 1) onceDepHang).map (fun c => (c.tokens, c.callCount 0,
+        (c.act? 1).map (·.phase), (c.act? 2).map (·.phase))) = some (0, 2, some .depsWait, some .wReleased) := by
+      decide
+    rw [hr] at h1 h2
+    simp only [Option.map_some, Option.some.injEq, Prod.mk.injEq] at h1 h2
+    exact ⟨c, rfl, ⟨h2.1, h2.2.1, h2.2.2.1, h2.2.2.2⟩, deadlocked_sound_old onceDep {} c h1⟩
 
 end Props.C07
